@@ -157,12 +157,18 @@ def run_check(cid, tier):
     shutil.rmtree(workdir, ignore_errors=True)
     os.makedirs(workdir, exist_ok=True)
     tmp = os.path.join(workdir, "tmp")
+    if spec.get("tmp") == "shm" and os.path.isdir("/dev/shm"):
+        # many thousands of recoveries, each with fsyncs: a memory file system keeps them cheap
+        tmp = "/dev/shm/verif-%s-%d" % (cid, os.getpid())
+        shutil.rmtree(tmp, ignore_errors=True)
     os.makedirs(tmp, exist_ok=True)
     try:
         return _run_check(cid, tier, spec, workdir, tmp, t_start)
     finally:
         if not os.environ.get("VERIF_KEEP"):
             shutil.rmtree(workdir, ignore_errors=True)
+        if tmp.startswith("/dev/shm/"):
+            shutil.rmtree(tmp, ignore_errors=True)
 
 
 def _run_check(cid, tier, spec, workdir, tmp, t_start):
